@@ -189,9 +189,10 @@ class SSH_Socket(ReadBuf, WriteBuf):
         e = None
         while s >= 0:
             s, e = self.recv()
-            if s < 0:
-                continue
             while self.unread_len > 0:
+                # Only parse complete lines; a line may arrive in several TCP segments.  Whatever is left when the peer stops sending is handled as the last line.
+                if s >= 0 and not self._has_complete_line():
+                    break
                 line = self.read_line()
                 if len(line.strip()) == 0:
                     continue
@@ -201,6 +202,13 @@ class SSH_Socket(ReadBuf, WriteBuf):
                 self.__header.append(line)
 
         return self.__banner, self.__header, e
+
+    def _has_complete_line(self) -> bool:
+        '''Returns True if the unread data contains a line terminator.'''
+        pos = self._buf.tell()
+        data = self._buf.read()
+        self._buf.seek(pos, 0)
+        return b'\n' in data
 
     def recv(self, size: int = 2048) -> Tuple[int, Optional[str]]:
         if self.__sock is None:
